@@ -10,7 +10,7 @@ from common import ModelError, R, cfl, fl, max_rel_err
 from common import wiring_pre_build as pre_build  # noqa: E402,F401
 
 LEAN_MODULES = ["PyomaVerif.Props.C04", "PyomaVerif.Mutants.C04", "PyomaVerif.Props.WiringRun", "PyomaVerif.Props.C04C13",
-                "PyomaVerif.Props.C04C06", "PyomaVerif.Props.C04Inv"]
+                "PyomaVerif.Props.C04C06", "PyomaVerif.Props.C04Inv", "PyomaVerif.Props.WiringStore", "PyomaVerif.Props.WiringClass", "PyomaVerif.Props.WiringCalls"]
 THEOREMS = [
     # depth round: the driver's inverse gaussInv, verified as written, satisfies InvContract (Props/C04Inv.lean)
     "PV.C04.C04_gaussInv_sound",
@@ -44,6 +44,10 @@ THEOREMS = [
     "PV.C04C13.ex_cor_ne",
     # call-site wiring of the class layer, regenerated from /repo on every run (translate_wiring.py)
     "PV.WiringRun.C04_run_spectral_ms",
+    "PV.WiringStore.C04_run_result_store_ms",
+    "PV.WiringClass.C04_run_own",
+    "PV.WiringCalls.C04_ms_run_calls",
+    "PV.WiringCalls.C05_plscf_run_calls",
     "PV.C04.C04_shape",
     "PV.C04.C04_blocks",
     "PV.C04.C04_identical_refs",
